@@ -4,9 +4,11 @@ from ._write_common import run_common
 
 def run(ctx):
     q = ctx.tier == "quick"
-    run_common(ctx, "C04", ["SfProps.C04", "SfProps.C04Caf", "SfProps.C04W64", "SfProps.C04Aiff"], stride=2 if q else 1, l1_scripts=250 if q else 2500)
+    run_common(ctx, "C04", ["SfProps.C04", "SfProps.C04Caf", "SfProps.C04W64", "SfProps.C04Aiff", "SfProps.C04Avr"], stride=2 if q else 1, l1_scripts=250 if q else 2500)
     if not getattr(ctx, "replay", None):
         from .. import cafw64
         cafw64.campaign(ctx)      # CAF / W64 byte-exact container models (lean/SfModel/Caf.lean, W64.lean)
         from .. import aiff          # AIFF / AIFF-C container model (lean/SfModel/Aiff.lean) against the library
         aiff.run(ctx, found=bool(ctx.violations))
+        from .. import small1        # AVR / IRCAM / PAF / SVX / VOC / NIST container models (lean/SfModel/SmallSession.lean + one file each)
+        small1.run(ctx, found=bool(ctx.violations))
